@@ -9,7 +9,8 @@
 (* tails (h.t bytes) are all atom strings.  HeadOK is a CONSTRAINT of the cfg files.           *)
 EXTENDS FLine, TLC, Json
 
-CONSTANTS Atoms, MaxLen, Cfgs, Junk, EmitOn, Heads
+CONSTANTS Atoms, MaxLen, Cfgs, Junk, EmitOn,
+          Sel        \* "rpl" | "req" | "tok" | "bad": which heads / atoms (cfg: Atoms <- AtomsSel)
 VARIABLES wire, vis, cont, obj, verdict, cfg, prev, hist
 
 INSTANCE Stream WITH P_New <- FLine_New, P_Call <- FLine_Call, P_Obs <- FLine_Obs, P_Reset <- FLine_Reset
@@ -24,8 +25,11 @@ aSP == <<SP>>  aHT == <<HT>>  aCR == <<CR>>  aLF == <<LF>>
 aA  == <<97>>                              \* 'a'
 a1  == <<49>>                              \* '1'
 
-RECURSIVE Cat(_)
-Cat(ss) == IF Len(ss) = 0 THEN <<>> ELSE Head(ss) \o Cat(Tail(ss))
+\* concatenation of up to 12 pieces.  NOT recursive on purpose: TLC evaluates constant definitions once at
+\* start-up only if they do not depend on RECURSIVE operators (else Heads/Atoms are rebuilt in every state).
+Pc(ss, k) == IF k <= Len(ss) THEN ss[k] ELSE <<>>
+Cat(ss) == Pc(ss, 1) \o Pc(ss, 2) \o Pc(ss, 3) \o Pc(ss, 4) \o Pc(ss, 5) \o Pc(ss, 6) \o Pc(ss, 7) \o Pc(ss, 8)
+           \o Pc(ss, 9) \o Pc(ss, 10) \o Pc(ss, 11) \o Pc(ss, 12)
 Range(f) == {f[k] : k \in DOMAIN f}
 \* a head: ps = the (long) atoms it is sent in, p = the text, t = bytes of free tail after it
 H(ps, t) == [ps |-> ps, p |-> Cat(ps), t |-> t]
@@ -38,7 +42,7 @@ Tail4 == {aSP, aCR, aLF, aA}
 
 \* ---- status lines
 HeadsRpl == {
-  H(<<S(<<aSIP, aSP>>), S(<<a200, aSP, aA>>)>>, 4),             \* "SIP/2.0 " "200 a"  + " a\r\n", "\r\n1", "\r1a" ...
+  H(<<S(<<aSIP, aSP>>), S(<<a200, aSP, aA>>)>>, 5),             \* "SIP/2.0 " "200 a"  + " a\r\n1", "\r\n1", "\r1a" ...
   H(<<S(<<asip, aSP, a200>>), aSP>>, 4),                        \* "sip/2.0 200" " "   + "\r\n1" (empty reason) ...
   H(<<aSIP, aSP, a200, aSP>>, 3),                               \* the same in small atoms
   H(<<S(<<aSIP, aSP>>), S(<<a200, aSP, aA>>), S(<<aA, aHT, aA, aSP>>)>>, 3) }   \* longer reason with HT/SP
@@ -47,7 +51,7 @@ AtomsRpl == Tail6 \cup PiecesOf(HeadsRpl)
 \* ---- request lines: a ladder of heads, each explored with all short tails
 HeadsReq == {
   H(<<S(<<aINVITE, aSP, aA>>), S(<<a1, aA, aSP, aSIP>>)>>, 3),          \* "INVITE a" "1a SIP/2.0" + "\r\n1" ...
-  H(<<S(<<aACK, aSP, aA, a1>>), S(<<aA, a1, aA, a1, aSP, aA>>)>>, 4),   \* 13 bytes, in the version: + "a\r\n1"
+  H(<<S(<<aACK, aSP, aA, a1>>), S(<<aA, a1, aA, a1, aSP, aA>>)>>, 5),   \* 13 bytes, in the version: + "a\r\n1", "a\r\n\r\n"
   H(<<aACK, aSP, aA, aSP, aA, a1, aA, a1, aA, a1, aA, a1>>, 3),         \* small atoms: "ACK a a1a1a1a1" + "\r\n1"
   H(<<S(<<aACK, aSP, aA, aSP, aA, aCR>>), S(<<aLF, aA, a1, aA, a1, aA>>)>>, 2),    \* short line, long enough buffer
   H(<<S(<<aACK, aSP, aA, aSP, aA, aLF>>), S(<<aCR, aA, a1, aA, a1, aA>>)>>, 2),
@@ -59,7 +63,7 @@ aMMM == S(<<aINVITE, aACK>>)        \* "INVITEACK"
 aAAAA == S(<<aA, aA, aA, aA>>)
 HeadsTok == {
   H(<<aMMM, aAAAA>>, 3),                                        \* "INVITEACK" "aaaa" + "a a", " a ", HT, CR ...
-  H(<<aMMM, aAAAA, S(<<aA, aSP, aA>>)>>, 4),                    \* ... "a a"  (method resumed, in the URI) + " a\r\n"
+  H(<<aMMM, aAAAA, S(<<aA, aSP, aA>>)>>, 5),                    \* ... "a a"  (method resumed, in the URI) + " a\r\n1"
   H(<<aMMM, aAAAA, S(<<aA, aSP, aA>>), S(<<aSP, aA>>)>>, 3),    \* ... " a"   (in the version) + "\r\n1"
   H(<<S(<<aACK, aSP>>), S(<<aA, a1, aA, a1, aA, a1, aA, a1, aA>>)>>, 3),            \* 13 bytes, in the URI
   H(<<S(<<aACK, aSP>>), S(<<aA, a1, aA, a1, aA, a1, aA, a1, aA>>), S(<<a1, aSP, aA>>)>>, 3) }
@@ -87,12 +91,17 @@ HeadsBad == {
   H(<<S(<<aINVITE, aSP, aA, aSP>>), S(<<aA, aSP, aA, aSP, aA>>)>>, 1) } \* four tokens
 AtomsBad == Tail4 \cup PiecesOf(HeadsBad)
 
+\* selection by a string constant: constants overridden with `<-` are re-evaluated on every use, whereas
+\* the definitions referenced here are evaluated once at start-up
+Heads    == CASE Sel = "rpl" -> HeadsRpl [] Sel = "req" -> HeadsReq [] Sel = "tok" -> HeadsTok [] Sel = "bad" -> HeadsBad
+AtomsSel == CASE Sel = "rpl" -> AtomsRpl [] Sel = "req" -> AtomsReq [] Sel = "tok" -> AtomsTok [] Sel = "bad" -> AtomsBad
+
 CfgsFL   == {[kind |-> "fline", start |-> s, flags |-> 0, hcap |-> -1, ccap |-> -1, pcap |-> -1] : s \in {0, 3}}
 CfgsFL0  == {[kind |-> "fline", start |-> 0, flags |-> 0, hcap |-> -1, ccap |-> -1, pcap |-> -1]}
 
 \* ---- the steering constraint
 Body == SubSeq(wire, cfg.start + 1, Len(wire))
-Compat(h, b) == \A k \in 1..(IF Len(h) < Len(b) THEN Len(h) ELSE Len(b)) : h[k] = b[k]
+Compat(h, b) == IF Len(b) <= Len(h) THEN SubSeq(h, 1, Len(b)) = b ELSE SubSeq(b, 1, Len(h)) = h   \* one is a prefix of the other
 InHeads(b) == \E h \in Heads : Compat(h.p, b) /\ Len(b) <= Len(h.p) + h.t
 HeadOK  == InHeads(Body)        \* the CONSTRAINT of the cfg files
 \* (TLC in -coverage mode cannot evaluate an operator that is both a CONSTRAINT and used in an invariant)
